@@ -3,6 +3,7 @@ package diagrams
 import (
 	"os"
 	"path/filepath"
+	"sort"
 	"strings"
 	"testing"
 
@@ -43,8 +44,13 @@ func (p *Plantumlmixin) Value() string {
 }
 
 func (p *Plantumlmixin) GenerateFromMap(m map[string]string, fs afero.Fs) error {
-	for k, v := range m {
-		if err := OutputPlantuml(k, p.Value(), v, fs); err != nil {
+	names := make([]string, 0, len(m))
+	for k := range m {
+		names = append(names, k)
+	}
+	sort.Strings(names)
+	for _, k := range names {
+		if err := OutputPlantuml(k, p.Value(), m[k], fs); err != nil {
 			return err
 		}
 	}
